@@ -49,6 +49,9 @@ def make_laws(dim, rng):
         try:
             T1 = np.array([1.0, 0.0, 0.0]); T2 = np.array([0.0, 1.0, 0.0])
             laws.append(("HolzapfelOgden", H_.HolzapfelOgden(3, 0.5, 4.0, 1.2, 5.0, 0.6, 3.0, 0.3, 2.0, 10.0, 0.2, 0.1, T1, T2), None))
+            # fibre and sheet directions out of every coordinate plane (orthonormal, rational: a Pythagorean rotation of e_x, e_y)
+            Rf = np.array([[2, -2, 1], [1, 2, 2], [-2, -1, 2]], dtype=float) / 3.0
+            laws.append(("HolzapfelOgden", H_.HolzapfelOgden(3, 0.5, 4.0, 1.2, 5.0, 0.6, 3.0, 0.3, 2.0, 10.0, 0.2, 0.1, Rf[:, 0].copy(), Rf[:, 1].copy()), None))
         except Exception as ex:  # noqa: BLE001
             pass
     return laws
@@ -203,6 +206,13 @@ def main():
             out = Operators.NonLinear.TimeQuadratureStressTensor(law, HyperElasticState(g, un, MatrixType.rigi), HyperElasticState(g, (un + uu) / 2, MatrixType.rigi), HyperElasticState(g, uu, MatrixType.rigi), 0.5, 3)
             return np.asarray(out[0]) * 0.5, out[1]
         fd_check("TimeQuadratureStressTensor", quad, u0, tol=2e-5)
+        # other time schemes: u_t = u_n + coefK (u_{n+1} - u_n), coefK = 1 (newmark), 1 - alpha (hht); fixed and adaptive rules
+        for coefK_, npts_, tol_ in ((1.0, 2, None), (0.7, 3, None), (1.0, 4, None), (0.7, 1, 1e-8)):
+            def quad2(uu, coefK_=coefK_, npts_=npts_, tol_=tol_):
+                ut = un + coefK_ * (uu - un)
+                out = Operators.NonLinear.TimeQuadratureStressTensor(law, HyperElasticState(g, un, MatrixType.rigi), HyperElasticState(g, ut, MatrixType.rigi), HyperElasticState(g, uu, MatrixType.rigi), coefK_, npts_, tol_)
+                return np.asarray(out[0]) * coefK_, out[1]
+            fd_check(f"TimeQuadratureStressTensor coefK={coefK_} nPoints={npts_} tol={tol_}", quad2, u0, tol=2e-5)
         if dim == 3:
             try:
                 nPg_ = np.asarray(g.Get_weightedJacobian_e_pg(MatrixType.rigi)).shape[1]
@@ -315,4 +325,6 @@ def main():
 
 
 if __name__ == "__main__":
-    main()
+    from tools.harness._common import run
+
+    run(main)
